@@ -17,6 +17,7 @@
 #include <atomic>
 #include <condition_variable>
 #include <cstddef>
+#include <cstdlib>
 #include <cstring>
 #include <exception>
 #include <mutex>
@@ -76,7 +77,10 @@ struct ScriptPool : public PyImath::WorkerPool
             }
             return;
         }
-        // threaded: one std::thread per distinct worker id, released together
+        // threaded: one std::thread per distinct worker id, released together (POOLSHIM_NO_BARRIER set: each thread
+        // starts working as soon as it is created -- no condition variable, for the run under valgrind --tool=drd,
+        // whose condition-variable bookkeeping aborts on the stack-allocated one below)
+        static const bool no_barrier = std::getenv ("POOLSHIM_NO_BARRIER") != nullptr;
         const size_t n = workers();
         std::vector<std::exception_ptr> errs(n);
         std::mutex m;
@@ -89,6 +93,7 @@ struct ScriptPool : public PyImath::WorkerPool
         {
             ts.emplace_back([&, k]() {
                 t_in_worker = true;
+                if (!no_barrier)
                 {
                     std::unique_lock<std::mutex> lk(m);
                     ++ready;
@@ -107,6 +112,7 @@ struct ScriptPool : public PyImath::WorkerPool
                 }
             });
         }
+        if (!no_barrier)
         {
             std::unique_lock<std::mutex> lk(m);
             cv.wait(lk, [&] { return ready == n; });
